@@ -48,6 +48,18 @@ pub fn noise_frames(run: &Run<'_>, p: usize) -> Vec<(String, Vec<u8>, bool)> {
         out.push(("announce-length-beyond-buffer".into(), b, false));
         let b = announce_variant(a, |m| m.tlvs = vec![rc::Tlv { typ: 0x4000, value: vec![1, 2, 3] }]);
         out.push(("announce-odd-tlv-length".into(), b, false));
+        // a TLV suffix that is not a sequence of complete TLVs (messageLength covers all of it)
+        for (what, suffix) in [
+            ("announce-tlv-cut-off", vec![0x00u8, 0x08, 0x00, 0x10, 1, 2, 3, 4, 5, 6, 7, 8]),
+            ("announce-stray-octets-behind-tlvs", vec![0x80, 0x08, 0x00, 0x00, 0xde, 0xad]),
+            ("announce-three-stray-octets", vec![0x00, 0x08, 0x00]),
+        ] {
+            let mut b = announce_variant(a, |_| {});
+            b.extend_from_slice(&suffix);
+            let l = b.len() as u16;
+            b[2..4].copy_from_slice(&l.to_be_bytes());
+            out.push((what.into(), b, false));
+        }
         out.push(("one-byte".into(), vec![0x0b], false));
         out.push(("empty".into(), vec![], false));
     }
